@@ -13,7 +13,10 @@ use tokio::{
     io::{AsyncRead, AsyncWrite, ReadBuf},
     net::TcpStream,
 };
-use tokio_tungstenite::tungstenite::{error::Error as TungsteniteError, protocol::Message};
+use tokio_tungstenite::tungstenite::{
+    error::{Error as TungsteniteError, ProtocolError},
+    protocol::Message,
+};
 
 use crate::MAX_SIZE_PACKET;
 
@@ -134,6 +137,14 @@ impl AsyncRead for WebsocketStream {
                 Poll::Pending => return Poll::Pending,
                 Poll::Ready(None) => return Poll::Ready(Ok(())),
                 Poll::Ready(Some(Err(e))) => match e {
+                    // The peer went away, with or without a closing handshake. Just like a TcpStream
+                    // this is the end of the stream (which Framed reports as Disconnected), not an
+                    // IO error.
+                    TungsteniteError::ConnectionClosed
+                    | TungsteniteError::AlreadyClosed
+                    | TungsteniteError::Protocol(ProtocolError::ResetWithoutClosingHandshake) => {
+                        return Poll::Ready(Ok(()));
+                    },
                     TungsteniteError::Io(e) => {
                         return Poll::Ready(Err(e));
                     },
